@@ -16,7 +16,7 @@ VHDL_ASSUME = [
 
 C05_MODULES = ["contracts.core_models", "contracts.c09_arith", "contracts.c09_bounded", "contracts.c05_convert", "contracts.c05_format_cast", "contracts.c05_setters", "contracts.c05_join", "contracts.c05_castsetter", "contracts.c13_array"]
 
-C13_MODULES = ["contracts.core_models", "contracts.c09_bounded", "contracts.c13_types", "contracts.c13_views", "contracts.c13_array", "contracts.c13_refspec", "contracts.c13_alias", "contracts.c09_tqparts"]
+C13_MODULES = ["contracts.core_models", "contracts.c09_bounded", "contracts.c13_types", "contracts.c13_views", "contracts.c13_array", "contracts.c13_refspec", "contracts.c13_alias", "contracts.c09_tqparts", "contracts.c05_format_cast", "contracts.c02_ops", "contracts.c08_temporaries", "contracts.c08_cleanup", "contracts.c12_actuals"]
 
 C06_MODULES = C05_MODULES + ["contracts.c13_types", "contracts.c13_views", "contracts.c06_names", "contracts.c06_ports", "contracts.c06_stmts", "contracts.c06_literals", "contracts.c02_ops", "contracts.c06_sensitivity", "contracts.c03_refvisit", "contracts.c06_text", "contracts.c06_library", "contracts.c02_replace"]
 
@@ -98,7 +98,7 @@ PROPERTIES = {
         ],
     },
     "C12": {
-        "modules": ["contracts.core_models", "contracts.c13_types", "contracts.c06_ports", "contracts.c12_instances", "contracts.c12_register", "contracts.c08_temporaries", "contracts.c08_cleanup", "contracts.c12_actuals", "contracts.c03_decl"],
+        "modules": ["contracts.core_models", "contracts.c13_types", "contracts.c06_ports", "contracts.c12_instances", "contracts.c12_register", "contracts.c08_temporaries", "contracts.c08_cleanup", "contracts.c12_actuals", "contracts.c03_decl", "contracts.c06_text"],
         "level": "proof",
         "explanation": "the structural half of the statement is decided function by function, each proved from the real source: (1) Entity._port_declarations emits exactly the declared ports, in declaration order, each line starting with the declared name and carrying the declared direction, and only returns when declared name == scope name (C06 contract, symbolic names); (2) cohdl.Entity.__init__ associates every formal with exactly the actual passed for it, rejects unknown names, missing actuals and incompatible actuals, and removes the default only from the object an instance output drives (a slice actual leaves the rest of its root initialised); (3) EntityInst._port_map / _generic_map list every formal once, in declaration order, with the text of its own actual for every order of the actuals dictionary; (4) VhdlAssembler.apply converts an entity template once (cache hit returns the converted entity, a new conversion is registered), declares its ports in order under their declared names, and gives every output port one buffer initialised with the port's default whenever it has one; (5) Library.from_top_entity lists every entity once, sub-entities before their users, over instantiation DAGs incl. shared templates; (6) _register_block / _register_context / on_block_exit attach to the innermost open block (stack depth 0-3); (7) ConvertInstance.apply keeps the assignment of an intermediate (or a slice of one) that is the actual of an instance port. BOUNDED: Entity.__init_subclass__ under inheritance (base / sibling / second-level classes adding ports in both orders): each class's declared and emitted interface is its inherited ports followed by its own, port dicts are not shared.",
         "extra": ["contracts.c12_extra.interface_sweep"],
